@@ -18,7 +18,8 @@ CONFIG = {
     "C11": dict(gen=["Models"], drivers=["ModelsF", "SpreadPoint"], extra_prop_files=["PgVerif/Tie/Models.lean"]),
     "C14": dict(gen=["Char"], drivers=["Char"]),
     "C16": dict(gen=["Char"], drivers=["Char"]),
-    "C19": dict(gen=["Char"], drivers=["Char"]),
+    "C19": dict(gen=["Char", "Models"], drivers=["Char"]),
+    "C17": dict(gen=["Char"], drivers=["Char"]),
     "C02": dict(gen=["Units"], drivers=["IsoState"]),
     "C03": dict(gen=["Units"], drivers=["Access"]),
     "C04": dict(gen=[], drivers=[]),
